@@ -273,8 +273,16 @@ func (c C08Case) valid() c08Valid {
 		v.hasBE = true
 	case "chat-nbt":
 		d, _ := rn.Encode(chatTree(c), true, nil)
-		if c.Count%5 == 4 {
+		switch c.Count % 7 {
+		case 4:
 			d, _ = rn.Encode(&rn.Tag{Type: rn.String, S: []byte(c.Text)}, true, nil)
+		case 5:
+			// the list form: a component given as a list of components (here of 0..2 elements)
+			l := &rn.Tag{Type: rn.List, Elem: rn.Compound}
+			for i := 0; i < 1+len(c.Text)%2; i++ {
+				l.L = append(l.L, chatTree(c))
+			}
+			d, _ = rn.Encode(l, true, nil)
 		}
 		v.w.Bytes(d)
 		v.nbtOff = 0
@@ -618,6 +626,26 @@ func (c C08Case) inputs(v c08Valid, f func(in c08Input) bool) {
 				continue
 			}
 			if !f(c08Input{b: in, class: "planted:" + m.What + ":" + p.must, mustErr: p.must}) {
+				return
+			}
+		}
+	}
+	if c.Dec == "chat-nbt" || c.Dec == "chat-type" {
+		// components in the list form with no elements, at the root and nested (a decoder may refuse them)
+		empty := &rn.Tag{Type: rn.List, Elem: rn.End}
+		emptyC := &rn.Tag{Type: rn.List, Elem: rn.Compound}
+		for _, t := range []*rn.Tag{empty, emptyC,
+			{Type: rn.Compound, K: [][]byte{[]byte("text"), []byte("extra")}, V: []*rn.Tag{{Type: rn.String, S: []byte("x")}, {Type: rn.List, Elem: rn.List, L: []*rn.Tag{empty, emptyC}}}},
+			{Type: rn.Compound, K: [][]byte{[]byte("translate"), []byte("with")}, V: []*rn.Tag{{Type: rn.String, S: []byte("chat.type.text")}, {Type: rn.List, Elem: rn.List, L: []*rn.Tag{empty, empty}}}},
+			{Type: rn.List, Elem: rn.List, L: []*rn.Tag{empty}},
+		} {
+			d, _ := rn.Encode(t, true, nil)
+			in := d
+			if c.Dec == "chat-type" {
+				in = append([]byte{byte(c.Count % 100)}, d...)
+				in = append(in, 0)
+			}
+			if !f(c08Input{b: in, class: "crafted:empty-list-component"}) {
 				return
 			}
 		}
